@@ -786,6 +786,21 @@ func (fr *frame) nilCheck(st *State, a *Term, pos token.Pos) {
 func (fr *frame) execInstr(st *State, in ssa.Instruction) {
 	u := fr.u
 	c := u.C
+	defer func() {
+		if r := recover(); r != nil {
+			if _, ok := r.(Unsupported); ok {
+				panic(r)
+			}
+			if _, ok := r.(StaleContract); ok {
+				panic(r)
+			}
+			if _, ok := r.(string); ok {
+				panic(r)
+			}
+			// internal inconsistency while executing an instruction: report it as unsupported, with the instruction
+			panic(Unsupported{fmt.Sprintf("%v at %s: %s", r, u.E.Fset.Position(in.Pos()), in)})
+		}
+	}()
 	switch x := in.(type) {
 	case *ssa.DebugRef:
 	case *ssa.Alloc:
